@@ -208,7 +208,9 @@ def run_schedule(lib, B, t, bs, debug=False, seconds=0.5):
 
     def act(b, setter=None):
         if b['act'] == 'raise':
-            raise b['x']
+            # (the same exception object is raised in thousands of schedules: without this its traceback grows by eight frames
+            # per raise - the host's doing - and printing it in debug mode eventually exceeds every budget)
+            raise b['x'].with_traceback(None)
         if setter is not None:
             setter(b['v'])
         return b['v']
